@@ -2,8 +2,8 @@ from vdriver import Job
 
 LEVEL = "proof"
 TECHNIQUE = "CBMC harness contracts on the real File_* wrappers against a ghost typestate of stdio handles (assumed stdio contracts)"
-LEVEL_TEXT = "placeholder"
-NOTE = "placeholder"
+LEVEL_TEXT = 'Complete (loop-free, full-domain) harness proofs of all File_* wrappers against a ghost typestate of stdio handles: representation invariant file == NULL or open, IOError and no stdio call on a closed File, exactly one fclose per open on sclose/del/with, arguments and results passed through unchanged.'
+NOTE = "stdio contracts assumed (fopen/fclose/fread/...); byte-level round trip is libc's"
 EXPLANATION = ("Every File_* wrapper of src/File.c runs on an arbitrary File object satisfying the representation invariant (file == NULL or an open "
                "handle), with stdio replaced by a ghost typestate whose functions assert 'open handle only' and return arbitrary results. "
                "Loop-free, inputs fully symbolic: complete proofs of the wrappers' contracts. Round-trip of the bytes themselves is libc's (assumed).")
